@@ -30,10 +30,6 @@ PARAM_NAMES = ['tolerance', 'dual_tolerance', 'penalty_update_factor', 'initial_
                'initial_penalty_factor', 'initial_tolerance', 'tolerance_update_factor',
                'rel_penalty_increase_threshold', 'max_multiplier', 'max_penalty', 'min_penalty']
 
-K_ABOVE_MAX = 'C07-penalty-above-max-penalty-is-decreased'
-K_INIT_TOL = 'C07-initial-tolerance-below-tolerance'
-K_SINGLE_NONUNIF = 'C07-single-penalty-factor-nonuniform-sigma'
-K_NONPOS = 'C07-nonpositive-user-sigma-accepted'
 K_PARAMS = 'C07-alm-params-not-validated'
 K_M0 = 'C07-m0-converged-trusts-inner-status'
 
@@ -141,13 +137,16 @@ def gen_random(rng, exact=True, max_len=12):
         P['max_multiplier'] = 10 ** rng.uniform(-1, 9)
         P['max_penalty'] = 10 ** rng.uniform(1, 9)
         P['min_penalty'] = 10 ** rng.uniform(-9, 0)
-    # keep the drawn point inside ValidParams (excluded points have their own generator)
-    if P['initial_penalty'] > P['max_penalty']:
-        P['initial_penalty'] = P['max_penalty']
+    # stay inside what is still excluded (open finding C07-alm-params-not-validated has its own
+    # generator); everything the repairs made admissible is drawn freely
     if P['min_penalty'] > P['max_penalty']:
         P['min_penalty'] = P['max_penalty']
-    if P['initial_tolerance'] < P['tolerance']:
-        P['initial_tolerance'] = P['tolerance']
+    if rng.random() < 0.15:
+        P['initial_tolerance'] = P['tolerance'] * rng.choice([0.5, 0.25, 2.0 ** -6])
+    if rng.random() < 0.15:
+        P['penalty_update_factor'] = rng.choice([0.5, 0.25, 0.0, -2.0])
+    if rng.random() < 0.1 and P['initial_penalty'] > 0:
+        P['initial_penalty'] = P['max_penalty'] * rng.choice([2.0, 16.0])
     single = rng.random() < 0.4
     m = rng.choice([0, 1, 1, 2, 2, 3])
     split = rng.choice([0, 0, 0, rng.randint(0, m)])
@@ -165,18 +164,20 @@ def gen_random(rng, exact=True, max_len=12):
             sig = None
     elif k < 0.8:
         hi = int(math.log2(P['max_penalty'])) if exact else 3
-        if single:
+        kind = rng.random()
+        if kind < 0.15:
+            hi += 3                                   # some components above max_penalty
+        if single and kind > 0.5:
             v = pow2(rng, -4, hi)
             sig = [v] * m
         else:
-            sig = [pow2(rng, -4, hi) for _ in range(m)]
+            sig = [pow2(rng, -4, hi) for _ in range(m)]   # non-uniform, also in single-factor mode
         if not exact:
-            sig = [min(s * rng.uniform(0.5, 1.0), P['max_penalty']) for s in sig]
-            if single:
-                sig = [sig[0]] * m
+            sig = [s * rng.uniform(0.5, 1.0) for s in sig]
     else:
-        # rejected by the C++ test `allFinite && norm > 0` → falls back to the parameters
-        sig = rng.choice([[0.0] * m, [NAN] + [1.0] * (m - 1), [INF] + [1.0] * (m - 1)])
+        # not used by the C++ (`allFinite && minCoeff > 0` fails) → falls back to the parameters
+        sig = rng.choice([[0.0] * m, [NAN] + [1.0] * (m - 1), [INF] + [1.0] * (m - 1),
+                          [1.0] * (m - 1) + [-2.0], [0.0] + [4.0] * (m - 1)])
     max_iter = rng.choice([0, 1, 2, 3, 5, 8, 100]) if max_len <= 12 else max_len
     L = rng.randint(0, max_len)
     script, prev = [], None
@@ -247,39 +248,51 @@ def exhaustive(lengths, ms=(0, 1, 2), sample=None, rng=None):
                     script.append(entry(st, eps, ez, [2.0 * (-1) ** (i + j) for i in range(m)],
                                         dx=0.5, iters=j + 1, extra=1, oot=(st == 'MaxTime')))
                 single = (len(h) + SI[h[0][0]]) % 2 == 1
-                sig = [0.5, 2.0][:m] if (SI[h[-1][0]] % 2 == 0 and not single) else None
+                sig = [0.5, 2.0][:m] if SI[h[-1][0]] % 2 == 0 else None
                 ops.append(op_line(P, L + (SI[h[0][0]] % 2), single, m, 0, lb, ub, 3.0,
                                    [1.0, -2.0][:m], sig, [0.5], [20.0, -20.0][:m], script))
     return ops
 
 
-def excluded_points(rng):
-    """One run per forced hypothesis of `ValidParams`, at the excluded point (DESIGN §7-H)."""
-    ops = []
+def _mk(P, sig, single=False, script=None, m=2, max_iter=4):
     big = entry('MaxIter', 1.0, [1.0, 2.0])
     big2 = entry('MaxIter', 1.0, [2.0, 4.0])
+    return op_line(P, max_iter, single, m, 0, [-1.0, -INF][:m], [1.0, 2.0][:m], 3.0, [1.0, -2.0][:m],
+                   sig, [0.5], [1.0, -1.0][:m], script or [big, big2, big, big2])
 
-    def mk(P, sig, single=False, script=None, m=2, max_iter=4):
-        return op_line(P, max_iter, single, m, 0, [-1.0, -INF][:m], [1.0, 2.0][:m], 3.0, [1.0, -2.0][:m],
-                       sig, [0.5], [1.0, -1.0][:m], script or [big, big2, big, big2])
-    # user Σ above max_penalty (and initial_penalty above max_penalty): decreased by the update
+
+def repaired_points(rng):
+    """The former excluded points that /verif/fixes/C07-*.diff repair: the property must hold there
+    now (on an unpatched tree these runs are VIOLATIONs)."""
+    ops = []
+    # user Σ above max_penalty / initial_penalty above max_penalty: must not be decreased
     P = default_params(); P['max_penalty'] = 8.0
-    ops.append(mk(P, [32.0, 2.0]))
+    ops.append(_mk(P, [32.0, 2.0]))
     P = default_params(); P['max_penalty'] = 8.0; P['initial_penalty'] = 32.0
-    ops.append(mk(P, None))
+    ops.append(_mk(P, None))
     # initial_tolerance < tolerance
     P = default_params(); P['initial_tolerance'] = 2.0 ** -12
-    ops.append(mk(P, None))
+    ops.append(_mk(P, None))
     # single-factor mode with non-uniform user Σ
     P = default_params()
-    ops.append(mk(P, [1.0, 64.0], single=True))
-    # non-positive user Σ components pass `allFinite && norm > 0`
+    ops.append(_mk(P, [1.0, 64.0], single=True))
+    ops.append(_mk(P, [64.0, 1.0], single=True))
+    # user Σ with a non-positive component must not be used
     P = default_params()
-    ops.append(mk(P, [-1.0, 2.0]))
-    ops.append(mk(P, [0.0, 2.0]))
-    # unvalidated parameters
+    ops.append(_mk(P, [-1.0, 2.0]))
+    ops.append(_mk(P, [0.0, 2.0]))
+    # penalty_update_factor < 1 (single-factor and per-component mode)
     P = default_params(); P['penalty_update_factor'] = 0.5
-    ops.append(mk(P, None, single=True))
+    ops.append(_mk(P, None, single=True))
+    ops.append(_mk(P, [2.0, 2.0]))
+    return ops
+
+
+def excluded_points(rng):
+    """One run per remaining forced hypothesis of `ValidParams`, at the excluded point
+    (open findings C07-alm-params-not-validated, C07-m0-converged-trusts-inner-status)."""
+    ops = []
+    mk = _mk
     P = default_params(); P['tolerance_update_factor'] = 2.0
     ops.append(mk(P, None))
     P = default_params(); P['tolerance'] = -4.0; P['initial_tolerance'] = -1.0; P['tolerance_update_factor'] = 0.5
@@ -300,7 +313,7 @@ def excluded_points(rng):
 
 def gen_ops(rng, n):
     thorough = n >= 20000
-    ops = excluded_points(rng)
+    ops = repaired_points(rng) + excluded_points(rng)
     if thorough:
         ops += exhaustive((1, 2, 3, 4))
     else:
@@ -483,25 +496,20 @@ def monitor_(op, out, st):
         elif k and not c['tol'] <= calls[k - 1]['tol']:
             msg = f'inner tolerance increased: {calls[k - 1]["tol"]!r} → {c["tol"]!r} at solve {k}'
         if msg:
-            if P['initial_tolerance'] < tol:
-                return (msg, K_INIT_TOL)
             if tuf > 1 or tol < 0:
                 return (msg, K_PARAMS)
             return msg
     # ---- penalties ------------------------------------------------------------------------
-    user = I['sig'] is not None and finite(I['sig']) and any(s != 0 for s in I['sig'])
+    # the caller's Σ counts as "the caller's initial penalties" only if it is usable at all:
+    # finite and componentwise positive (anything else must not reach the inner solver)
+    user = I['sig'] is not None and finite(I['sig']) and all(s > 0 for s in I['sig'])
     init = calls[0]['sigma']
-    caller_above = any(s > maxpen for s in init) and (user or P['initial_penalty'] > maxpen)
+    caller_above = (user and any(s > maxpen for s in I['sig'])) or \
+                   (not user and P['initial_penalty'] > maxpen)
     excuse = None
-    if any(s > maxpen for s in init):
-        excuse = K_ABOVE_MAX if caller_above else None
-    if user and any(not s > 0 for s in I['sig']):
-        excuse = K_NONPOS
-    elif user and I['single'] and len(set(I['sig'])) > 1:
-        excuse = K_SINGLE_NONUNIF
-    if excuse is None and (P['min_penalty'] > maxpen or not P['min_penalty'] > 0 or
-                           (I['single'] and P['penalty_update_factor'] < 1)):
-        excuse = K_PARAMS
+    if not user and not P['initial_penalty'] > 0 and \
+            (P['min_penalty'] > maxpen or not P['min_penalty'] > 0):
+        excuse = K_PARAMS        # automatic initial penalty with an invalid [min_penalty, max_penalty]
 
     def viol(msg):
         return (msg, excuse) if excuse else msg
@@ -603,7 +611,7 @@ if __name__ == '__main__':
         gen_scripts=['gen_c15.py', 'gen_c06.py', 'gen_c07.py'],
         modules=['Alpaqa.Props.C07'], driver='drv_c07',
         extra_sources=['Alpaqa/Gen/C07.lean', 'Alpaqa/Gen/C06.lean', 'Alpaqa/Gen/C15.lean',
-                       'Alpaqa/Model/C07.lean', 'Alpaqa/Model/C15.lean', 'Alpaqa/Proofs/C07.lean',
+                       'Alpaqa/Model/C07.lean', 'Alpaqa/Model/C15.lean', 'Alpaqa/Proofs/C07.lean', 'Alpaqa/Proofs/C07Run.lean', 'Alpaqa/Proofs/VecLemmas.lean',
                        'Alpaqa/Proofs/Basic.lean', 'Alpaqa/Props/C15.lean'],
         harness_name='c07',
         harness_sources=HARNESS_SOURCES,
@@ -624,12 +632,12 @@ if __name__ == '__main__':
         ],
         assumptions=['the inner solver is an arbitrary function of what it is called with; the problem '
                      'passes p.check(); Σ, y, err_z have m entries'],
-        rule='excluded points of ValidParams (13 fixed runs); exhaustive histories of length ≤ 3 (quick; ≤ 4 '
+        rule='9 repaired former excluded points + 6 remaining excluded points of ValidParams (fixed runs); exhaustive histories of length ≤ 3 (quick; ≤ 4 '
              'thorough, quick samples 2500 of length 4 and 500 of length 6 per m) over {Converged, MaxIter, NotFinite, NoProgress, '
              'Interrupted, MaxTime} × 3 error patterns (ties on dual tolerance / θ-threshold / tolerance) × '
-             'm ∈ {0,1,2}, user Σ on/off, single_penalty_factor on/off, max_iter ∈ {L, L+1}; seeded random '
+             'm ∈ {0,1,2}, (non-uniform) user Σ on/off, single_penalty_factor on/off, max_iter ∈ {L, L+1}; seeded random '
              'histories (70% exact regime: powers of two; 30% generic doubles), m ∈ {0..3}, one-sided / free / '
-             'equal D rows, penalty_alm_split, rejected user Σ (NaN / inf / zero), NaN/inf ε and slack '
+             'equal D rows, penalty_alm_split, user Σ valid / non-uniform in single-factor mode / above max_penalty / rejected (NaN, inf, zero, negative entry), initial_tolerance < tolerance, penalty_update_factor < 1, initial_penalty > max_penalty, NaN/inf ε and slack '
              'errors, max_iter ∈ {0..100}, histories up to length 100; distinct = distinct op lines with ≥ 1 '
              'inner solve',
     ))
